@@ -29,7 +29,7 @@ func init() {
 		},
 		Quick:    150000,
 		Thorough: 8000000,
-		Require:  []string{"cut.insideHeader", "read.severalFrames", "read.singleByte", "oversize.headerSupplied", "frame.bodyLen=13+0", "frame.bodyLen=269+0", "frame.bodyLen=65805+0"},
+		Require:  []string{"pool.recyclingOn", "monitor.dropsMessage", "handler.busyWhileQueueFull", "cut.insideHeader", "read.severalFrames", "read.singleByte", "oversize.headerSupplied", "frame.bodyLen=13+0", "frame.bodyLen=269+0", "frame.bodyLen=65805+0"},
 		Assume: []string{
 			"'header' of a frame = length nibble, extended length, code and token; the connection must be closed at the quiescent point after the last header byte of an oversize frame was supplied (the body is withheld by the simulator)",
 			"generated frames are either clearly within the maximum (total frame length <= max) or clearly above it (declared options+payload length > max), so the oracle does not depend on which of the two the implementation compares",
